@@ -210,6 +210,23 @@ def handle_value_replay():
     return None
 
 
+def set_param_values_replay():
+    """The contract on _set_param_values with str.replace as CPython computes it: fenced / plain '**kwargs' types and ordinary ones"""
+    import cdd.shared.docstring_parsers as dp
+
+    for val in ("```**kwargs```", "**kwargs", "```**kw```", "```dict```", "```Optional[int]```", "int", "``` **x```"):
+        for input_str, sw in ((":type kwargs", ":type"), (":param kwargs", ":type")):
+            try:
+                r = dp._set_param_values(input_str, val, sw)
+            except Exception as ex:
+                return {"kind": "set-param-values", "input": [input_str, val, sw], "what": "raises %s: %s" % (type(ex).__name__, ex)}
+            t = val.replace("```", "")
+            want = ("typ", "dict" if t.startswith("**") else t) if input_str.startswith(sw) else ("doc", val)
+            if tuple(r) != want:
+                return {"kind": "set-param-values", "input": [input_str, val, sw], "what": "_set_param_values(%r, %r, %r) returns %r; the contract says %r (a stored type never starts with '**')" % (input_str, val, sw, tuple(r), want)}
+    return None
+
+
 def check_one(job):
     kind = job[0]
     try:
@@ -277,6 +294,10 @@ def main(tier, write_baseline=False):
     fails = {}
     if not os.environ.get("VERIF_NO_BOUNDED"):
         jobs = list(gen_docstrings())
+        # the way this very code base documents a **kwargs parameter in ReST: the type inside a code fence
+        for fence in ("```**kwargs```", "**kwargs", "```dict```", "```Optional[dict]```"):
+            for tail in ("", ":return: the result\n:rtype: ```int```\n"):
+                jobs.append(("docstring", "rest", "Summary line.\n\n:param a: the a\n:type a: ```int```\n\n:param kwargs: keyword arguments\n:type kwargs: %s\n\n%s" % (fence, tail)))
         ndoc = len(jobs)
         jobs += [("merge", m) for m in ("build", "__init__", "make")]
         jobs += list(sqla_sources())
@@ -312,7 +333,7 @@ def main(tier, write_baseline=False):
         if o["name"] in seen:
             continue
         seen.add(o["name"])
-        run.violation(o["name"], "obligation refuted by %s on path %s" % (o["backend"], " ".join(o["trace"])), failing_input=(handle_value_replay() if "_handle_value" in o["name"] else None) or common.model_replay("contracts.C14", o), solver_output={"model": o["model"], "smt2": (o["smt2"] or "")[:4000]})
+        run.violation(o["name"], "obligation refuted by %s on path %s" % (o["backend"], " ".join(o["trace"])), failing_input=(handle_value_replay() if "_handle_value" in o["name"] else (set_param_values_replay() if "_set_param_values" in o["name"] else None)) or common.model_replay("contracts.C14", o), solver_output={"model": o["model"], "smt2": (o["smt2"] or "")[:4000]})
     for key, (kind, payload, what) in sorted(fails.items(), key=str):
         cls = "|".join(str(k) for k in key)
         run.violation("C14/bounded/%s" % key[0], "[class %s] %s" % (cls, what), key={"class": cls}, failing_input={"kind": kind, "input": json.loads(json.dumps(payload, default=str))})
